@@ -217,7 +217,9 @@ func ParseMessage(reader *bufio.Reader) (*Message, error) {
 				return nil, errors.New("not a valid sip request")
 			}
 			name := line[0:pos]
-			value := strings.TrimSpace(line[pos+1:])
+			// only SP and HTAB are blanks in SIP: TrimSpace would also take the unicode
+			// spaces ( no-break space, ideographic space, ... ) off a UTF-8 value
+			value := strings.Trim(line[pos+1:], " \t")
 			msg.AddHeader(name, value)
 		}
 	}
